@@ -17,8 +17,12 @@ import (
 
 func c01Opts(r *mon.RNG, i int) *gram.GenOpts {
 	prof := []int{gram.ProfStateful, gram.ProfStateful, gram.ProfDefault, gram.ProfLower, gram.ProfScanCfg}[i%5]
-	return &gram.GenOpts{Profile: prof, MaxProds: 5, Budget: 14 + r.Intn(14), Depth: 2 + r.Intn(3), TokKinds: i%3 == 0, Unions: true,
+	o := &gram.GenOpts{Profile: prof, MaxProds: 5, Budget: 14 + r.Intn(14), Depth: 2 + r.Intn(3), TokKinds: i%3 == 0, Unions: true,
 		SharePrefix: 6, CaptureBias: 4, SubBias: 3, AllowBang: true, NamesElided: i%7 == 3}
+	if o.NamesElided {
+		o.Profile = gram.ProfStateful // only this profile has elided token types a grammar can name
+	}
+	return o
 }
 
 func c02Opts(r *mon.RNG, i int) *gram.GenOpts {
